@@ -23,7 +23,9 @@ Mutation self-test (2026-09-21/22).  Full quick runs through mc/mutant.sh:
   * pmapping_dataframe.py merge_next: objective columns added twice      -> caught
     (joined-vs-model-breakdown/energy x18, /energy_delay_product x6; the model's own Total
     columns pass through the same merge, so only oracle (2) sees it)
-  * pmapping_dataframe.py row2pmappings: reads einsum_names[0]'s column  -> MUTANT_B
+  * pmapping_dataframe.py row2pmappings: reads einsum_names[0]'s column  -> caught on the
+    multi-Einsum specs whose Einsums' tile columns differ (model-rejects-returned-mapping/
+    ValueError x3, /AssertionError x2: the rebuilt mapping is no longer a valid mapping)
 Targeted runs (run_one on a patched copy, 5 spec x metric configurations):
   * compress_pmappings.py _compress: compressed index reversed (rows get another pmapping's
     mapping/breakdown columns)                                           -> caught
@@ -277,6 +279,7 @@ def tree_of(ctx):
 
 def run(ctx):
     afx.serial()
+    run_one("MV2-222/tight", "ELR")  # warm-up in the parent: imports, jitted kernels, caches are inherited by the workers
     tree, sids, metrics = tree_of(ctx)
     ctx.explore("returned-rows", tree, body, shard_depth=2, distinct_by_construction=True)
     ctx.bound(specs=sids, metrics=metrics)
